@@ -50,6 +50,7 @@ theorem mel_eq_min : ∀ (ty : Ty), mel ty = min (melNat ty) usizeMax
   | .str => by simp [mel, melNat]
   | .bytes => by simp [mel, melNat]
   | .box _ t => by simp only [mel, melNat, mel_eq_min t]
+  | .wrap _ => by simp [mel, melNat]
   | .duration => by simp [mel, melNat, usizeMax]
   | .range t => by simp only [mel, melNat, mel_eq_min t, satMul_min]
   | .bitseq _ _ => by simp [mel, melNat]
@@ -140,6 +141,7 @@ theorem encode_le_melNat : ∀ (ty : Ty) (v : Val), hasMel ty = true → wf ty v
   | .box _ t, v, hm, h => by
     simp only [Spec.encode, melNat]
     exact encode_le_melNat t v (by simpa [hasMel] using hm) (by simpa [wf] using h)
+  | .wrap _, _, hm, _ => by simp [hasMel] at hm
   | .duration, v, _, h => by
     obtain ⟨s, n, rfl, _, _⟩ := wf_duration h
     simp [Spec.encode, melNat]
@@ -221,6 +223,7 @@ theorem encode_eq_melNat : ∀ (ty : Ty) (v : Val), isCel ty = true → wf ty v 
   | .box _ t, v, hm, h => by
     simp only [Spec.encode, melNat]
     exact encode_eq_melNat t v (by simpa [isCel] using hm) (by simpa [wf] using h)
+  | .wrap _, _, hm, _ => by simp [isCel] at hm
   | .duration, v, _, h => by
     obtain ⟨s, n, rfl, _, _⟩ := wf_duration h
     simp [Spec.encode, melNat]
